@@ -613,3 +613,118 @@ def lo_call(fn, a):
         return fn(*a["output_names"], run_folder=a["run_folder"])
     finally:
         L.Path, L.RunInfo, L._load_from_store, L._maybe_load_array = saved
+
+
+# ---- pipefunc/_utils.py::equal_dicts (C05 / C12: is this request the run that the folder holds?) -------------------------
+# map(cleanup=False) compares the new inputs and defaults with the recorded ones through this function: True / False
+# decide "resume" / "refuse", None ("could not compare") resumes with a warning.  _is_equal (a dispatch on dynamic types
+# that may raise for exotic values) is an assumed pure partial relation.
+UT = "pipefunc/_utils.py"
+DSO2 = TDict(TStr, TObj)
+
+is_equal_c = Contract(f"{UT}::_is_equal", params={"a": TObj, "b": TObj}, returns=TBool, trusted=True, pure=True,
+                      raises=[("Exception", lambda S, a: S.uf("spec:is_equal-raises", TBool, a.a, a.b) if S.symbolic else False)],
+                      note="value comparison by kind of value (dict, ndarray, set, float, str, list/tuple, ==): an assumed "
+                           "deterministic partial relation; where it raises is uninterpreted")
+print_c = Contract("builtins::print", params={"msg": TStr}, returns=TObj, trusted=True, pure=True, note="diagnostic output")
+warn_c = Contract("warnings::warnings.warn", params={"msg": TStr, "stacklevel": TInt}, returns=TObj, trusted=True, pure=True,
+                  static=True, note="diagnostic output")
+
+
+def _ie(S, x, y):
+    if S.symbolic:
+        return S.uf("spec:is_equal-raises", TBool, x, y), S.uf("fn:_is_equal", TBool, x, y)
+    import warnings
+    from pipefunc._utils import _is_equal as real
+    try:
+        with warnings.catch_warnings():
+            warnings.simplefilter("ignore")
+            return False, bool(real(x, y))
+    except Exception:  # noqa: BLE001
+        return True, False
+
+
+def _ed_same_keys(S, a):
+    if S.symbolic:  # (the key sets as such: extensional equality of the two domains)
+        return DSO2.dom(a.d1.t) == DSO2.dom(a.d2.t)
+    return S.and_(S.forall_in_dict(a.d1, lambda k: S.has(a.d2, k)), lambda: S.forall_in_dict(a.d2, lambda k: S.has(a.d1, k)))
+
+
+def _ed_differs(S, a):
+    """Some key whose two values can be compared and are not equal."""
+    return S.exists_in_dict(a.d1, lambda k: S.and_(S.has(a.d2, k), lambda: S.and_(
+        S.not_(_ie(S, a.d1[k], a.d2[k])[0]), lambda: S.not_(_ie(S, a.d1[k], a.d2[k])[1]))))
+
+
+def _ed_ensures(S, a, r, post):
+    same = _ed_same_keys(S, a)
+    differs = _ed_differs(S, a)
+    errs = S.exists_in_dict(a.d1, lambda k: S.and_(S.has(a.d2, k), lambda: _ie(S, a.d1[k], a.d2[k])[0]))
+    return {
+        "other key sets: not equal": S.implies(S.not_(same), lambda: S.and_(S.not_(S.is_none(r)), lambda: S.not_(S.some(r)))),
+        "same keys, a comparable pair of values differs: not equal (whatever else could not be compared)": S.implies(
+            S.and_(same, lambda: differs), lambda: S.and_(S.not_(S.is_none(r)), lambda: S.not_(S.some(r)))),
+        "same keys, nothing differs, something could not be compared: undecided (None)": S.implies(
+            S.and_(same, lambda: S.and_(S.not_(differs), lambda: errs)), lambda: S.is_none(r)),
+        "same keys, every pair compared and equal: equal": S.implies(
+            S.and_(same, lambda: S.and_(S.not_(differs), lambda: S.not_(errs))),
+            lambda: S.and_(S.not_(S.is_none(r)), lambda: S.some(r))),
+    }
+
+
+def _ed_inv(S, a, v, k):
+    key = v._okey
+    pair = lambda i: _ie(S, a.d1[key(i)], a.d2[key(i)])  # noqa: E731
+    return {
+        "every pair so far could not be compared or is equal": S.forall(0, k, lambda i: S.or_(pair(i)[0], lambda: pair(i)[1])),
+        "errors were noted exactly for the pairs that could not be compared": S.iff(
+            S.len(v.errors) > 0, S.exists(0, k, lambda i: pair(i)[0])),
+    }
+
+
+equal_dicts = Contract(
+    f"{UT}::equal_dicts", params={"d1": DSO2, "d2": DSO2, "verbose": TBool}, defaults={"verbose": False}, returns=TOpt(TBool),
+    ensures=_ed_ensures, loops={0: LoopSpec(_ed_inv)}, locals_={"errors": TSeq(TObj)},
+    # assumed about Python, not about the code: len of a dict is the number of its keys, so dicts with the same key set
+    # have the same len (the dict model of the encoding has no cardinality; the pigeonhole argument is not within SMT reach)
+    axioms=lambda S, a: [S.implies(_ed_same_keys(S, a), S.len(a.d1) == S.len(a.d2))],
+    note="assumes: dicts with equal key sets have equal len (semantics of len, stated as an axiom of this contract)",
+)
+EQUAL_DICTS = [is_equal_c, print_c, warn_c, equal_dicts]
+
+
+class _Incomparable:
+    def __eq__(self, other):
+        raise TypeError("cannot compare")
+
+    __hash__ = None  # type: ignore[assignment]
+
+
+def ed_gen(rng, tier):
+    import numpy as np
+    vals = [1, 1.0, "a", [1, 2], (1, 2), {"k": 1}, {1, 2}, None, 2, "b", [1, 3], np.array([1, 2]), np.array([1, 3])]
+    for _ in range(400 if tier == "quick" else 4000):
+        keys = [k for k in "abcd" if rng.random() < 0.6]
+        d1 = {k: rng.choice(vals) for k in keys}
+        d2 = {}
+        for k in keys:
+            r = rng.random()
+            d2[k] = d1[k] if r < 0.7 else (rng.choice(vals) if r < 0.9 else _Incomparable())
+            if r >= 0.95:
+                d1[k] = _Incomparable()
+        if rng.random() < 0.15 and keys:
+            d2.pop(rng.choice(keys))
+        if rng.random() < 0.15:
+            d2["z"] = 1
+        items = list(d2.items())
+        rng.shuffle(items)
+        yield {"d1": d1, "d2": dict(items), "verbose": rng.random() < 0.3}
+
+
+def ed_call(fn, a):
+    import contextlib
+    import io
+    import warnings
+    with warnings.catch_warnings(), contextlib.redirect_stdout(io.StringIO()):
+        warnings.simplefilter("ignore")
+        return fn(a["d1"], a["d2"], verbose=a["verbose"])
